@@ -135,6 +135,9 @@ def monAlways (cs : CaseSt) (o : Obs) : List String :=
   (if atMostOnce o then [] else ["C04.at_most_once"]) ++
   (if workItemsOK cs.m o then [] else ["C04.workitems_exact"]) ++
   (if workersOK cs.m o then [] else ["C09.running_le_workers"]) ++
+  -- model-free count: a work function that has started and whose gate has not been released is executing, whichever
+  -- goroutine it runs on; there are never more of them than workers
+  (if (o.started.filter fun i => !(cs.m.released.any (·.1 == i))).length ≤ cs.m.W then [] else ["C09.running_le_workers"]) ++
   (if workConserving cs.m o then [] else ["C09.work_conserving"]) ++
   (if backPressure cs.m o then [] else ["C09.back_pressure"]) ++
   (if errorsOK cs.m o then [] else ["C14.at_most_once_same_value"]) ++
